@@ -25,7 +25,8 @@ type nilSource struct {
 }
 
 type nilCtx struct {
-	e *Engine
+	e             *Engine
+	uncheckedMemo map[*ssa.Function][2]bool
 	// struct types whose pointer-typed fields are optional (maybe nil)
 	optionalOwner func(n *types.Named) bool
 	// nilable parameters: function -> param index
@@ -544,6 +545,27 @@ func (c *nilCtx) classifyD(fn *ssa.Function, v ssa.Value, d int) *nilSource {
 		}
 		return nil
 	case *ssa.Call:
+		// a helper that hands on the first result of a comma-ok lookup also when the lookup missed (`c, ok := lookup(id);
+		// if !ok { log }; return c`): its result is that unchecked value
+		if f := x.Common().StaticCallee(); f != nil && d < 2 {
+			if un, typed := c.returnsUncheckedLookup(f); un {
+				name := f.Name()
+				if typed {
+					// an interface holding a nil pointer: comparing it with nil does not detect the miss
+					return &nilSource{Kind: "S1", At: x, Desc: "result of " + name + "(), which returns a missed lookup's value unchecked (an interface holding a nil pointer: `== nil` does not detect it)", Assume: func(cond ssa.Value) (bool, bool) {
+						return false, false
+					}}
+				}
+				return &nilSource{Kind: "S1", At: x, Desc: "result of " + name + "(), which returns a missed lookup's value unchecked", Assume: func(cond ssa.Value) (bool, bool) {
+					if b, ok := cond.(*ssa.BinOp); ok && (b.Op == token.EQL || b.Op == token.NEQ) {
+						if (b.X == v && isNilConstV(b.Y)) || (b.Y == v && isNilConstV(b.X)) {
+							return true, b.Op == token.EQL
+						}
+					}
+					return false, false
+				}}
+			}
+		}
 		if f := x.Common().StaticCallee(); f != nil {
 			if fld := c.nilSafeGetter(f); fld != nil {
 				recvT := f.Signature.Recv().Type()
@@ -1070,5 +1092,51 @@ func (c *nilCtx) checkZeroLocals(fn *ssa.Function) (findings []nilFinding, exami
 			}
 		}
 	}
+	return
+}
+
+// returnsUncheckedLookup: a repository function with a single pointer/interface result that may return the first result
+// of a comma-ok lookup / call on a path where that lookup's ok is false. typed reports that the value is an interface
+// wrapping a possibly-nil pointer (a typed nil on a miss).
+func (c *nilCtx) returnsUncheckedLookup(g *ssa.Function) (unchecked, typed bool) {
+	if g == nil || g.Blocks == nil || g.Pkg == nil || !isRepoPath(g.Pkg.Pkg.Path()) {
+		return false, false
+	}
+	if c.uncheckedMemo == nil {
+		c.uncheckedMemo = map[*ssa.Function][2]bool{}
+	}
+	if m, ok := c.uncheckedMemo[g]; ok {
+		return m[0], m[1]
+	}
+	c.uncheckedMemo[g] = [2]bool{false, false}
+	res := g.Signature.Results()
+	if res.Len() != 1 || !isPtrOrIface(res.At(0).Type()) {
+		return false, false
+	}
+	for _, ret := range Returns(g) {
+		v := retValue(ret, 0)
+		var srcs []ssa.Value
+		Origins(v, func(o ssa.Value) bool {
+			if ex, ok := o.(*ssa.Extract); ok && ex.Index == 0 {
+				srcs = append(srcs, ex)
+				return true
+			}
+			return false
+		})
+		for _, sv := range srcs {
+			src := c.classifyD(g, sv, 2)
+			if src == nil || src.Kind != "S1" {
+				continue
+			}
+			// is the return reachable while the lookup missed?
+			if p := FindPath(PathQuery{Fn: g, From: src.At, Assume: src.Assume, Target: func(in ssa.Instruction) bool { return in == ssa.Instruction(ret) }}); p != nil {
+				unchecked = true
+				if strings.Contains(src.Desc, "interface holding a nil pointer") {
+					typed = true
+				}
+			}
+		}
+	}
+	c.uncheckedMemo[g] = [2]bool{unchecked, typed}
 	return
 }
